@@ -54,4 +54,5 @@ def try_refute(constraints, timeout_ms=400):
     s.set('timeout', timeout_ms)
     for c in cons:
         s.add(c)
-    return s.check() == z3.unsat
+    from . import solve as _sv
+    return _sv.guarded_check(s, timeout_ms) == z3.unsat
